@@ -774,6 +774,11 @@ class Model:
             self.bufs[0] = MBuf(self.sources[op[1]], op[1])
             self.bstack = [0]
             self.emit(["X", "open_buf", str(op[1])])
+        elif k == "open_restart":    # yyrestart(source) before anything else: no buffer, no yyin yet
+            self.bufs[0] = MBuf(self.sources[op[1]], op[1])
+            self.bstack = [0]
+            self.emit(["X", "open_restart", str(op[1])])
+            self.f("restart_without_buffer")
         elif k == "newin":           # after termination: yyin = new source, call yylex again
             b = self.cur()
             b.data = bytearray(self.sources[op[1]])
@@ -845,7 +850,7 @@ class Model:
             self.emit(["X", "delete", str(op[1])])
             self.f("delete")
         elif k in ("gcreate", "gswitch", "gpush", "gpop", "gdelete", "gscan_bytes",
-                   "gscan_string", "gscan_buffer", "gflush", "greflush"):
+                   "gscan_string", "gscan_buffer", "gflush", "greflush", "gdelrestart"):
             self.do_guarded(op)
         elif k == "gdelete_all":     # the user deletes their own non-current buffers
             for s_ in [x for x in self.bufs if x not in self.bstack]:
@@ -911,6 +916,18 @@ class Model:
             del self.bufs[s]
             self.emit(["X", "delete", str(s)])
             self.f("delete")
+        elif k == "gdelrestart":
+            # yy_delete_buffer(YY_CURRENT_BUFFER); yyrestart(source): the scanner has no current
+            # buffer when yyrestart() is called and makes one for the file it is given
+            src = op[1]
+            s = st[-1]
+            if any(b.src == src for sl, b in self.bufs.items() if sl != s):
+                self.emit(["X", "skip", name])
+                return
+            self.bufs[s] = MBuf(self.sources[src], src)
+            self.more_pending = False
+            self.emit(["X", "delrestart", str(s), str(src)])
+            self.f("restart_without_buffer")
         elif k in ("gscan_bytes", "gscan_string"):
             _, s, si = op[:3]
             if s in self.bufs:
